@@ -267,6 +267,18 @@ theorem rounds_safe {cfg : Cfg} (hsync : cfg.syncSlot = true) :
         subst hi
         exact Spec.Admissible.survived hadm
 
+/-- once appends cut a torn tail off (C17's repair in the tree), freshness is all a history needs -/
+theorem histOK_of_fresh {cfg : Cfg} (htol : cfg.tailTolerant = true) :
+    ∀ (rounds : List Round) (fs : FS) (seen : List Nat), FreshHist seen rounds → HistOK cfg fs seen rounds
+  | [], _, _, _ => trivial
+  | r :: rest, fs, seen, h => ⟨Or.inl htol, h.1, histOK_of_fresh htol rest _ _ h.2⟩
+
+instance decFreshHist : ∀ (seen : List Nat) (rounds : List Round), Decidable (FreshHist seen rounds)
+  | _, [] => inferInstanceAs (Decidable True)
+  | seen, r :: rest =>
+    have := decFreshHist (seen ++ r.txs.flatMap (·.nodes)) rest
+    inferInstanceAs (Decidable (FreshAll seen r.txs ∧ FreshHist (seen ++ r.txs.flatMap (·.nodes)) rest))
+
 /-! ### acknowledged commits are inside every admissible list -/
 
 theorem admissible_prefix {T0 T : List Tx} {os : List Spec.RoundObs} (h : Spec.Admissible T0 os T) : T0 <+: T := by
